@@ -12,6 +12,35 @@ use std::sync::Mutex;
 pub fn check_entry(e: &'static Entry, ctx: &Ctx) -> DeclReport {
     match ctx.prop.as_str() {
         "C01" => with_entry!(e, vt => props::c01::check(vt, ctx)),
+        "C03" => with_entry!(e, vt => props::c03::check(vt, ctx)),
+        "C04" => with_entry!(e, vt => props::c04::check(vt, ctx)),
+        "C06" => with_entry!(e, vt => props::c06::check(vt, ctx)),
+        "C07" => with_entry!(e, vt => props::c07::check(vt, ctx)),
+        "C09" => with_entry!(e, vt => props::c09::check(vt, ctx)),
+        "C10" => with_entry!(e, vt => props::c10::check(vt, ctx)),
+        "C11" => with_entry!(e, vt => props::c11::check(vt, ctx)),
+        "C13" => with_entry!(e, vt => props::c13::check(vt, ctx)),
+        "C16" => with_entry!(e, vt => props::c16::check(vt, ctx)),
+        "C12" => match e {
+            Entry::F32(vt) => props::c12::check_float(vt, ctx),
+            Entry::F64(vt) => props::c12::check_float(vt, ctx),
+            other => DeclReport::irrelevant(other.id()),
+        },
+        "C14" => match e {
+            Entry::U8(vt) => props::c09::check_c14(vt, ctx),
+            Entry::U16(vt) => props::c09::check_c14(vt, ctx),
+            Entry::U32(vt) => props::c09::check_c14(vt, ctx),
+            Entry::U64(vt) => props::c09::check_c14(vt, ctx),
+            Entry::U128(vt) => props::c09::check_c14(vt, ctx),
+            Entry::Usize(vt) => props::c09::check_c14(vt, ctx),
+            Entry::I8(vt) => props::c09::check_c14(vt, ctx),
+            Entry::I16(vt) => props::c09::check_c14(vt, ctx),
+            Entry::I32(vt) => props::c09::check_c14(vt, ctx),
+            Entry::I64(vt) => props::c09::check_c14(vt, ctx),
+            Entry::I128(vt) => props::c09::check_c14(vt, ctx),
+            Entry::Isize(vt) => props::c09::check_c14(vt, ctx),
+            other => DeclReport::irrelevant(other.id()),
+        },
         p => panic!("unknown property {p}"),
     }
 }
